@@ -381,6 +381,11 @@ class RetryExecutor(CanCustomizeBind, Executor):
 
                     if not job.delegate_future:
                         self._log.debug("Successful cancel - no delegate: %s", job)
+                        # Between retries the future still refers to the delegate
+                        # future of its previous attempt; drop it, as a cancelled
+                        # future must not keep that future (and via its callbacks
+                        # this executor) alive
+                        future._clear_delegate()
                         self._jobs.pop(idx)
                         metrics.RETRY_QUEUE.labels(executor=self._name).dec()
                         return True
